@@ -378,7 +378,7 @@ class CasXmiDeserializer:
         if type_name.startswith("uima.noNamespace."):
             type_name = type_name[17:]
 
-        AnnotationType = typesystem.get_type(type_name)
+        AnnotationType = typesystem.get_type(type_name, True)
         attributes = dict(elem.attrib)
         attributes.update(children)
 
